@@ -385,6 +385,7 @@ func runHist(t *testing.T, run *emit.Run, s scen, fromCorpus bool) {
 	var denoms []string
 	seenDenom := map[string]bool{}
 	nextTx := uint64(0)
+	renounced := map[string]bool{}
 	hs := newHistSubs()
 	subID := hs.id
 	dn := func(st scen) (string, int64, int64) {
@@ -457,7 +458,11 @@ func runHist(t *testing.T, run *emit.Run, s scen, fromCorpus bool) {
 				}
 			case "tokenfactory.MsgChangeAdmin":
 				na := st.Named["NewAdmin"]
-				term = fmt.Sprintf("Objects.OChangeAdmin %d %d %d %d", pid(st.Creator), dc, ds, pid(na))
+				nap := pid(na)
+				if na == -3 {
+					nap = 0 // renounced: no admin
+				}
+				term = fmt.Sprintf("Objects.OChangeAdmin %d %d %d %d", pid(st.Creator), dc, ds, nap)
 			case "tokenfactory.MsgMint":
 				term = fmt.Sprintf("Objects.OMint %d %d %d", pid(st.Creator), dc, ds)
 			case "skyway.MsgSetERC20ToTokenDenom":
@@ -480,6 +485,23 @@ func runHist(t *testing.T, run *emit.Run, s scen, fromCorpus bool) {
 		}
 		ho.Steps = append(ho.Steps, o)
 		terms = append(terms, emit.Pair(term, emit.Bool(o.Ok)))
+		// a denom whose admin role was renounced never gets an admin again, whatever happens
+		if s.Env != 3 {
+			for _, d := range denoms {
+				md, err := e.tfK.GetAuthorityMetadata(e.ctx, d)
+				if err != nil {
+					continue
+				}
+				if renounced[d] && md.Admin != "" {
+					run.Violate("C03:tokenfactory-renounced-denom-administered-again",
+						fmt.Sprintf("step %d (%s by %d): denom %s, whose admin role was renounced, is administered by %s again (it can mint, burn, change admin and metadata)", len(ho.Steps)-1, st.Kind, st.Creator, d, md.Admin), s)
+					renounced[d] = false
+				}
+				if md.Admin == "" {
+					renounced[d] = true
+				}
+			}
+		}
 	}
 	// final projection, read from the real stores
 	var admins, binds, pend []string
@@ -621,7 +643,20 @@ func genHist(r *rand.Rand, env int) scen {
 			st := selfSigned("tokenfactory.MsgChangeAdmin", by)
 			st.Of, st.ID = d.of, d.sub
 			st.Named["NewAdmin"] = p()
+			if r.Intn(4) == 0 {
+				st.Named["NewAdmin"] = -3 // renounce
+			}
 			s.Hist = append(s.Hist, st)
+			if st.Named["NewAdmin"] == -3 && r.Intn(2) == 0 {
+				// the creator (or somebody else) creates the same subdenom again, then tries to mint / hand over
+				again := selfSigned("tokenfactory.MsgCreateDenom", pick(r, d.of, d.of, p()))
+				again.ID = d.sub
+				s.Hist = append(s.Hist, again)
+				ca := selfSigned("tokenfactory.MsgChangeAdmin", d.of)
+				ca.Of, ca.ID = d.of, d.sub
+				ca.Named["NewAdmin"] = p()
+				s.Hist = append(s.Hist, ca)
+			}
 		case x < 55 && env != 2:
 			d := anyDen()
 			by := d.of
@@ -707,6 +742,26 @@ func genTemplate(r *rand.Rand, env int) scen {
 		return st
 	}
 	add(mk("tokenfactory.MsgCreateDenom", b, b, subB))
+	if r.Intn(4) == 0 {
+		// create -> mint -> renounce -> create again (same creator, same subdenom; also somebody else) -> mint
+		if env == 2 {
+			add(mk("tokenfactory.MsgMint", b, b, subB))
+		}
+		st := mk("tokenfactory.MsgChangeAdmin", b, b, subB)
+		st.Named["NewAdmin"] = -3
+		add(st)
+		if r.Intn(2) == 0 {
+			add(scen{Kind: "genesis", Mod: "tokenfactory", SigBy: -1})
+		}
+		add(mk("tokenfactory.MsgCreateDenom", pick(r, b, b, a), b, subB))
+		if env == 2 {
+			add(mk("tokenfactory.MsgMint", b, b, subB))
+		}
+		st = mk("tokenfactory.MsgChangeAdmin", b, b, subB)
+		st.Named["NewAdmin"] = pick(r, a, b, u)
+		add(st)
+		return s
+	}
 	if env == 2 && r.Intn(2) == 0 {
 		// licences of two clients paid by two principals, then paloma's (and tokenfactory's) genesis
 		// round trip, then the clients' licences are still theirs
